@@ -420,6 +420,58 @@ func c17AfterFailedWrite(r *core.Run, idx int, rng *rand.Rand) {
 	}
 }
 
+// c17Dictionary substitutes the string constants of the library itself (placeholders, sentinels) as
+// RelayState and inside consumer URLs.
+func c17Dictionary(r *core.Run, idx int, rng *rand.Rand) {
+	const wl = "dictionary_values"
+	c17Skeletons()
+	if c17SkelErr != "" {
+		return
+	}
+	dict := repoDictionary()
+	if len(dict) == 0 {
+		r.Inconclusive("no string literals found under " + repoRoot() + "/pkg")
+		return
+	}
+	for k := idx * 8; k < idx*8+8 && k < len(dict); k++ {
+		tok := dict[k]
+		for variant := 0; variant < 3; variant++ {
+			relay := tok
+			switch variant {
+			case 1:
+				relay = "a" + tok + "b" + tok
+			case 2:
+				relay = legalXMLString(rng, 2) + tok
+			}
+			sc := randScenario(rng, fmt.Sprintf("MK%dd%dx", idx, k), false)
+			sc.Host = ""
+			sc.S.Binding = spsim.BindPost
+			sc.S.RelayState = relay
+			sc.S.ACS = "https://sp.example/acs"
+			if variant == 2 {
+				sc.S.ACS = "https://sp.example/acs/" + tok
+			}
+			sc.S.AuthRequestID = "id" + tok
+			e := sc.build()
+			call := sc.callback(e)
+			desc := map[string]any{"dictionary_token": tok, "relay_state": relay, "acs": sc.S.ACS}
+			r.Eval("dict|" + core.Hex(tok) + fmt.Sprint(variant))
+			r.Count("dictionary_pages", 1)
+			if call.Panic != "" {
+				r.Violate(core.Violation{Clause: "panic", Class: "dictionary", Reason: call.Panic, Workload: wl, Index: idx, Case: desc, Observed: call.Describe()})
+				continue
+			}
+			if call.D.Kind != "form" {
+				continue
+			}
+			c17Judge(r, wl, idx, "dictionary", c17PostSkel, call.D, sc.S.ACS, relay, desc, call)
+			if call.D.Msg == nil || call.D.Msg.InResponseTo != sc.S.AuthRequestID {
+				r.Violate(core.Violation{Clause: "message_value", Class: "dictionary", Reason: "the SAMLResponse field does not hold this reply's message", Workload: wl, Index: idx, Case: desc, Observed: call.Describe()})
+			}
+		}
+	}
+}
+
 var _ = url.QueryEscape
 
 func init() {
@@ -428,16 +480,18 @@ func init() {
 		TimeoutQuick: 5 * time.Minute, TimeoutThorough: 30 * time.Minute,
 		Build: func(c *Ctx) []core.Workload {
 			r := c.Run
-			r.Rule = "auto-submit pages are produced through every real path (login callback Success and error replies with RelayState and consumer URL from stored requests: arbitrary bytes incl. NUL, invalid UTF-8, up to 64 KiB; SSO error replies with RelayState from query / form and consumer URL from SP metadata; logout replies) and tokenised by the harness's own byte-level HTML tokenizer. The skeleton (token sequence, tag and attribute names, static values and text) must equal the skeleton of a rendering with neutral sentinels; the three dynamic values must be the substituted RelayState (NUL / invalid UTF-8 may become U+FFFD, CR/CRLF -> LF), a pure base64 message that decodes, and the consumer URL under the 'only-encodes' relation - or the inert placeholder, only for URLs with a non-http(s)/mailto 'scheme'; the emitted action's scheme as a browser reads it must be http, https, mailto or none. A further workload renders a page right after an earlier reply of the same provider failed to be written (broken connection after N bytes). Distinct = (path, consumer URL, RelayState length)."
+			r.Rule = "auto-submit pages are produced through every real path (login callback Success and error replies with RelayState and consumer URL from stored requests: arbitrary bytes incl. NUL, invalid UTF-8, up to 64 KiB; SSO error replies with RelayState from query / form and consumer URL from SP metadata; logout replies) and tokenised by the harness's own byte-level HTML tokenizer. The skeleton (token sequence, tag and attribute names, static values and text) must equal the skeleton of a rendering with neutral sentinels; the three dynamic values must be the substituted RelayState (NUL / invalid UTF-8 may become U+FFFD, CR/CRLF -> LF), a pure base64 message that decodes, and the consumer URL under the 'only-encodes' relation - or the inert placeholder, only for URLs with a non-http(s)/mailto 'scheme'; the emitted action's scheme as a browser reads it must be http, https, mailto or none. Every string constant of the library's own source (a fuzzing dictionary: placeholders, sentinels) is substituted as RelayState and inside the consumer URL. A further workload renders a page right after an earlier reply of the same provider failed to be written (broken connection after N bytes). Distinct = (path, consumer URL, RelayState length)."
 			r.Require("pages_checked", int64(c.Pick(2000, 25000)))
 			r.Require("actions_replaced_by_placeholder", 100)
 			r.Require("actions_url", 500)
 			r.Require("pages_after_failed_write", 300)
+			r.Require("dictionary_pages", 300)
 			return []core.Workload{
 				{Name: "callback_pages", N: c.Pick(1600, 20000), Fn: c17Callback},
 				{Name: "sso_error_pages", N: c.Pick(800, 10000), Fn: c17SSOError},
 				{Name: "logout_pages", N: c.Pick(800, 10000), Fn: c17Logout},
 				{Name: "pages_after_failed_write", N: c.Pick(100, 1000), Fn: c17AfterFailedWrite},
+				{Name: "dictionary_values", N: (len(repoDictionary()) + 7) / 8, Fn: c17Dictionary},
 			}
 		},
 	})
